@@ -11,6 +11,17 @@ mostly the width, often right after a scroll and followed by a scroll whose righ
 one, so that a scroll decision made with a stale size is exposed.  The start-up probes are answered with every
 DECRPM value 0..4 for each of the modes 69 / 25 / 12 (`new L C slrm colon rgb vis blink`); reply 2 for mode 69 (known
 finding slrm_probe_reset while the tree accepts it) only in its dedicated history.
+Formatted output (`printf <hex> [d]` = tickit_term_printf "%s" / "%s%d"): every formatted length 0..200 bytes is
+produced in every run (sweep histories on a 3 x 210 screen: goto, printf, then a cursor-relative erasech that shows
+where the cursor ended), besides printf requests mixed into the random histories.
+Output buffers (`outbuf N` = tickit_term_set_output_buffer, N in 1..300 around the usual sizes and the lengths of the
+strings written): a third of the random histories run buffered, with `flush` every few requests and at the end, texts
+shorter and longer than the buffer, a goto / erasech / pen change pending in the buffer when a long text follows; the
+buffer size changes only right after a flush (a few percent deliberately not: outside the contract, not judged).
+`pause` + `resume` (tickit_term_pause / _resume), typically followed by a partial-width scroll (which needs DECLRMM
+to be what the driver thinks it is) and by erasures under the re-sent pen; `stop` + `start` (tickit_term_teardown,
+then tickit_term_set_output_func again) only while the cached pen is the default one (a stale pen cache after a
+restart is C12's business).
 The known findings of C09 are triggered only in dedicated histories (at most two per file) so that they cannot
 crowd out other disagreements; tier `exhaustive` enumerates every rectangle and offset on 4x5 and 3x3 screens for
 every capability combination, every erase on a 2x5 screen and every goto/move on a 3x3 screen.
@@ -45,6 +56,10 @@ class Hist:
         self.prevC = None           # width before the last resize that changed it
         self.just_resized = False
         self.scrolled = False       # has a scrollrect been sent (a driver might cache something on the first one)
+        self.buf = 0                # size of the output buffer (0 = none)
+        self.dirty = False          # requests issued since the last flush point (with a buffer)
+        self.pen_default = True     # the cached pen is empty or all-default
+        self.oor = True             # may requests be out of range (not in buffered histories: they suspend judging)
         if vis is None:
             lines.append(f"new {L} {C} {slrm} {colon} {rgb}")
         else:
@@ -57,6 +72,50 @@ class Hist:
 
     def emit(self, s, kind):
         lines.append(s); dist["op:" + kind] += 1; self.n += 1
+        if self.buf and kind not in ("flush", "pause", "stop", "outbuf"):
+            self.dirty = True
+
+    # ---- output layer
+    def flush(self):
+        self.emit("flush", "flush"); self.dirty = False
+
+    def outbuf(self, n=None):
+        if n is None:
+            n = rng.choice([1, 2, 3, 4, 5, 7, 8, 15, 16, 17, 31, 32, 33, 63, 64, 65, 80, 100, 127, 128, 129, 200, 255, 256, 257, 300,
+                            rng.randrange(1, 301), rng.randrange(1, 301), rng.randrange(1, 40), 0])
+        if self.dirty:
+            if rng.random() < 0.9:
+                self.flush()
+            else:
+                dist["outbuf:while-pending"] += 1       # outside the contract: pending bytes are dropped
+                self.known = False
+        self.emit(f"outbuf {n}", "outbuf")
+        dist["outbuf:" + ("0" if n == 0 else "1-8" if n <= 8 else "9-63" if n < 64 else "64-128" if n <= 128 else "129-300")] += 1
+        self.buf = n
+        if n == 0:
+            self.dirty = False
+
+    def suspend(self):
+        self.emit("pause", "pause"); self.dirty = False
+        if rng.random() < 0.1:
+            self.emit("flush", "flush")
+        self.emit("resume", "resume")
+        dist["suspend:slrm=%d" % self.slrm] += 1
+        x = rng.random()
+        if x < 0.6:
+            self.scroll(partial=True)
+        elif x < 0.8:
+            self.erasech()
+
+    def restart(self):
+        if not self.pen_default:
+            self.emit("setpen", "setpen"); self.rv = False; self.pen_default = True
+        self.emit("stop", "stop"); self.dirty = False
+        self.emit("start", "start")
+        dist["restart"] += 1
+        self.known = False
+        if rng.random() < 0.6:
+            self.scroll(partial=True)
 
     # ---- cursor
     def goto(self, force_abs=False):
@@ -72,7 +131,7 @@ class Hist:
             self.row = r
         elif not force_abs and x < 0.20:
             self.emit("goto -1 -1", "goto"); dist["goto:none"] += 1
-        elif not force_abs and x < 0.23:
+        elif not force_abs and x < 0.23 and self.oor:
             rr, cc = rng.choice([(L, c), (r, C), (-2, c), (r, -3), (L + 5, C + 7)])
             self.emit(f"goto {rr} {cc}", "goto"); dist["out-of-range"] += 1
             self.known = False
@@ -89,7 +148,7 @@ class Hist:
         L, C = self.L, self.C
         tr = rng.choice([self.row, self.row, 0, L - 1, min(L - 1, self.row + 1), max(0, self.row - 1), rng.randrange(L)])
         tc = rng.choice([self.col, self.col, 0, C - 1, min(C - 1, self.col + 1), max(0, self.col - 1), rng.randrange(C)])
-        if rng.random() < 0.03:
+        if rng.random() < 0.03 and self.oor:
             d, r = rng.choice([(L, 0), (0, C), (-L, -C), (-self.row - 1, 0), (0, C - self.col)])
             self.emit(f"move {d} {r}", "move"); dist["out-of-range"] += 1
             self.known = False
@@ -118,16 +177,30 @@ class Hist:
         self.ensure_pos()
         avail = self.C - self.col
         x = rng.random()
-        if x < 0.03:
+        if x < 0.03 and self.oor:
             self.emit(f"print {self.text(avail + rng.randrange(1, 4))}", "print"); dist["out-of-range"] += 1
             self.known = False
             return
         if x < 0.05:
-            self.emit("print -", "print"); dist["print:empty"] += 1
+            self.emit(rng.choice(["print -", "printf -"]), "print"); dist["print:empty"] += 1
             return
         w = avail if x < 0.30 else rng.choice([1, 1, 2, rng.randrange(1, avail + 1)])
         w = min(w, avail)
-        if rng.random() < 0.12:
+        y = rng.random()
+        if y < 0.30:
+            # formatted output: "%s" or "%s%d"
+            if y < 0.08 and w >= 2:
+                d = rng.choice([0, 7, -3, 42, 12345, -99999, 2147483647])
+                if len(str(d)) >= w: d = 7
+                t = self.text(w - len(str(d)))
+                self.emit(f"printf {t or '-'} {d}", "printf"); dist["printf:%s%d"] += 1
+                nb = len(t) // 2 + len(str(d))
+            else:
+                t = self.text(w)
+                self.emit(f"printf {t}", "printf"); dist["printf:%s"] += 1
+                nb = len(t) // 2
+            dist["printf:len" + ("<63" if nb < 63 else "=%d" % nb if nb <= 65 else "66-126" if nb < 127 else "=%d" % nb if nb <= 129 else ">129")] += 1
+        elif y < 0.40:
             # printn with a length shorter than the string (the known finding printn_zero_len, length 0 of a
             # non-empty string, is probed from the corpus only)
             t = self.text(w)
@@ -148,7 +221,7 @@ class Hist:
             n = rng.choice([0, -1, -5])
             self.emit(f"erasech {n} {me}", "erasech"); dist["erasech:n<1"] += 1
             return
-        if x < 0.06:
+        if x < 0.06 and self.oor:
             self.emit(f"erasech {avail + rng.randrange(1, 70)} {me}", "erasech"); dist["out-of-range"] += 1
             self.known = False
             return
@@ -188,14 +261,20 @@ class Hist:
             toks.append(f"rv={rvv}")
         self.emit(" ".join([op] + toks), op)
         if op == "setpen":
+            self.pen_default = (not toks or toks[0] == "bg=-1" or not toks[0].startswith("bg=")) and not rvv
+        elif (toks and toks[0].startswith("bg=") and toks[0] != "bg=-1") or rvv:
+            self.pen_default = False
+        if op == "setpen":
             self.rv = bool(rvv) if rvv is not None else False
         elif rvv is not None:
             self.rv = bool(rvv)
         dist["pen:rv=" + str(int(self.rv))] += 1
 
-    def rect(self):
+    def rect(self, partial=False):
         L, C = self.L, self.C
         kind = rng.choice(["full", "band", "band", "right", "left", "inner", "inner", "oneline", "onecol", "any", "any"])
+        if partial and C >= 2:
+            kind = rng.choice(["left", "inner", "oneline", "any"])
         if self.prevC is not None and self.prevC < C and rng.random() < (0.6 if self.just_resized else 0.3):
             kind = rng.choice(["oldright", "oldright", "oldfull"])
         if kind == "oldright":        # right edge where the right edge of the screen used to be
@@ -222,13 +301,15 @@ class Hist:
         if n <= 1: return 0
         return rng.choice([0, 0, 1, -1, n - 1, -(n - 1), rng.randrange(-(n - 1), n)])
 
-    def scroll(self):
+    def scroll(self, partial=False):
         for _ in range(20):
-            kind, t, l, n, c = self.rect()
+            kind, t, l, n, c = self.rect(partial)
+            if partial and l + c == self.C and c > 1:
+                c -= 1
             d, r = self.offs(n), self.offs(c)
             if d == 0 and r == 0 and rng.random() < 0.85:
                 continue
-            x = rng.random()
+            x = rng.random() if self.oor else 1.0
             if x < 0.04:
                 d, r = rng.choice([(n, 0), (0, c), (-n, r), (d, -c - 1), (n + 3, c + 3)]); oor = True
             elif x < 0.06:
@@ -262,6 +343,8 @@ class Hist:
         L, C = self.L, self.C
         if not self.scrolled and rng.random() < 0.7:
             self.scroll()
+        if self.dirty:
+            self.flush()
         nL = L if rng.random() < 0.6 else rng.choice([max(1, L - 1), L + 1, rng.randrange(1, L + 4)])
         nC = rng.choice([C + 1, max(1, C - 1), C + rng.randrange(1, 8), max(1, C - rng.randrange(1, 8)), 2 * C, max(1, C // 2), C])
         nL, nC = min(nL, 60), min(nC, 300)
@@ -311,17 +394,92 @@ def random_history(trigger=None):
         h.scroll(); h.scroll()
         return
     if trigger == "rvlast":
-        h.emit("setpen rv=1", "setpen"); h.rv = True
+        h.emit("setpen rv=1", "setpen"); h.rv = True; h.pen_default = False
+    buffered = trigger is None and rng.random() < 0.34
+    if buffered:
+        h.oor = False
+        if rng.random() < 0.3:
+            h.goto(); h.print_()        # something unbuffered first
+        h.outbuf(rng.choice([None, None, None, max(1, C - rng.randrange(0, 3)), max(1, C // 2), C + rng.randrange(1, 12)]) or None)
+        dist["hist:buffered"] += 1
     if rng.random() < 0.3 and L * C <= 2400:
         h.fill()
     nops = rng.randrange(8, 36)
-    weights = [("goto", 16), ("move", 12), ("print", 16), ("erasech", 20), ("clear", 3), ("scroll", 23), ("pen", 10), ("resize", 5)]
+    weights = [("goto", 16), ("move", 12), ("print", 16), ("erasech", 20), ("clear", 3), ("scroll", 23), ("pen", 10), ("resize", 5),
+               ("suspend", 4), ("restart", 1)]
+    if buffered:
+        weights = [("goto", 16), ("move", 10), ("print", 22), ("erasech", 18), ("clear", 3), ("scroll", 16), ("pen", 10), ("resize", 3),
+                   ("suspend", 4), ("restart", 1), ("flush", 9), ("outbuf", 2)]
     if trigger == "onecol": weights = [("goto", 5), ("print", 10), ("scroll", 60), ("pen", 5)]
     if trigger == "rvlast": weights = [("goto", 20), ("print", 10), ("erasech", 60)]
     names = [w[0] for w in weights]; ws = [w[1] for w in weights]
     while h.n < nops:
         k = rng.choices(names, ws)[0]
-        {"goto": h.goto, "move": h.move, "print": h.print_, "erasech": h.erasech, "clear": h.clear, "scroll": h.scroll, "pen": h.pen, "resize": h.resize}[k]()
+        {"goto": h.goto, "move": h.move, "print": h.print_, "erasech": h.erasech, "clear": h.clear, "scroll": h.scroll, "pen": h.pen, "resize": h.resize,
+         "suspend": h.suspend, "restart": h.restart, "flush": h.flush, "outbuf": h.outbuf}[k]()
+    if h.buf:
+        h.flush()
+
+
+def printf_sweep(lengths, slrm, bufsize=0):
+    """goto; printf of exactly `n` formatted bytes; cursor-relative erasech (shows where the cursor ended)"""
+    C = 210
+    h = Hist(3, C, slrm, rng.randrange(2), rng.randrange(2))
+    if bufsize:
+        h.outbuf(bufsize)
+    for i, n in enumerate(lengths):
+        row, col = i % 3, rng.choice([0, 0, 1, C - n - 1 if n < C - 1 else 0, rng.randrange(0, C - n)])
+        h.emit(f"goto {row} {col}", "goto")
+        x = rng.random()
+        if x < 0.25 and n >= 2:
+            d = rng.choice([5, -7, 12, 123456])
+            if len(str(d)) > n: d = 5
+            k = n - len(str(d))
+            t = "".join("%02x" % (0x21 + (i * 5 + j) % 94) for j in range(k))
+            h.emit(f"printf {t or '-'} {d}", "printf")
+        elif x < 0.45 and n >= 3:
+            # multi-byte characters: n bytes, fewer columns
+            out, nb = [], 0
+            while nb < n:
+                ch = rng.choice(W1 + W2) if n - nb >= 4 else None
+                if ch and nb + len(ch) // 2 <= n: out.append(ch); nb += len(ch) // 2
+                else: out.append("%02x" % rng.randrange(0x21, 0x7f)); nb += 1
+            h.emit("printf " + "".join(out), "printf")
+        else:
+            h.emit("printf " + ("".join("%02x" % (0x21 + (i * 3 + j) % 94) for j in range(n)) or "-"), "printf")
+        dist["printf-sweep"] += 1
+        h.emit(f"erasech 1 {rng.choice([0, 1])}", "erasech")
+        if bufsize and rng.random() < 0.5:
+            h.flush()
+    if bufsize:
+        h.flush()
+
+
+def order_history():
+    """an output buffer smaller than a text, with a positioning / erase / pen change still pending in it"""
+    L, C = rng.randrange(2, 6), rng.randrange(8, 90)
+    slrm = rng.choice([0, 1])
+    h = Hist(L, C, slrm, rng.randrange(2), rng.randrange(2))
+    h.oor = False
+    h.fill()
+    n = rng.choice([C - 1, C, C + 1, C // 2, 3, 5, 8, rng.randrange(1, C + 8)])
+    h.outbuf(max(1, n))
+    for _ in range(rng.randrange(3, 9)):
+        h.goto(force_abs=True)
+        x = rng.random()
+        if x < 0.3: h.erasech()
+        elif x < 0.45: h.pen()
+        elif x < 0.55: h.move()
+        h.ensure_pos()
+        avail = h.C - h.col
+        w = rng.choice([avail, avail, max(1, avail - 1), rng.randrange(1, avail + 1)])
+        h.emit(("printf " if rng.random() < 0.4 else "print ") + h.text(w), "print")
+        dist["order:text" + (">buf" if w > h.buf else "<=buf")] += 1
+        if h.col + w == h.C: h.col, h.pw = h.C - 1, True
+        else: h.col += w
+        if rng.random() < 0.35:
+            h.flush()
+    h.flush()
 
 
 def exhaustive():
@@ -417,6 +575,64 @@ def exhaustive():
                 for c1 in range(3):
                     h.emit(f"goto {l0} {c0}", "goto"); h.emit(f"move {l1 - l0} {c1 - c0}", "move"); g += 1
     dist["exhaustive:goto+move"] = g
+    # pause + resume, then every rectangle x offset on a 3x3 screen, for the DECRPM replies 0 / 1 / 3 of mode 69
+    # (the scroll after the resume relies on DECLRMM being what the driver takes it for)
+    u = 0
+    for reply in (0, 1, 3):
+        cases = []
+        L, C = 3, 3
+        for t in range(L):
+            for b in range(t + 1, L + 1):
+                for l in range(C):
+                    for r in range(l + 1, C + 1):
+                        nl, nc = b - t, r - l
+                        for d in range(-(nl - 1), nl):
+                            for rt in range(-(nc - 1), nc):
+                                if d or rt:
+                                    cases.append((t, l, nl, nc, d, rt))
+        for i in range(0, len(cases), 6):
+            h = Hist(L, C, reply, 0, 0)
+            if (i // 6) % 2:
+                h.emit("setpen bg=%d rv=%d" % (i % 16, (i // 12) % 2), "setpen")
+            for cs in cases[i:i + 6]:
+                h.fill()
+                h.emit("pause", "pause"); h.emit("resume", "resume")
+                h.emit("scroll %d %d %d %d %d %d" % cs, "scroll"); u += 1
+    dist["exhaustive:suspend-scroll"] = u
+    # every formatted length 0..200, unbuffered and through output buffers around the stack-buffer size
+    f = 0
+    for bufsize in (0, 1, 63, 64, 65, 128):
+        for base in range(0, 201, 15):
+            h = Hist(3, 210, 1, 0, 0)
+            if bufsize:
+                h.emit(f"outbuf {bufsize}", "outbuf")
+            for n in range(base, min(base + 15, 201)):
+                h.emit(f"goto {n % 3} {n % 5}", "goto")
+                if n % 4 == 3 and n >= 3:
+                    h.emit("printf " + "".join("%02x" % (0x21 + (n + j) % 94) for j in range(n - 2)) + " 47", "printf")
+                else:
+                    h.emit("printf " + ("".join("%02x" % (0x21 + (n + j) % 94) for j in range(n)) or "-"), "printf")
+                h.emit("erasech 1 1", "erasech"); f += 1
+                if bufsize:
+                    h.emit("flush", "flush")
+    dist["exhaustive:printf-length"] = f
+    # output buffers of 1..14 bytes x texts of 1..12 columns on a 2x12 screen, with a goto, a goto + erasech or a
+    # goto + pen change pending in the buffer when the text is written
+    w = 0
+    for N in range(1, 15):
+        for pend in range(3):
+            h = Hist(2, 12, 1, 0, 0)
+            h.emit(f"outbuf {N}", "outbuf")
+            for k in range(1, 13):
+                col = (k * 5 + N) % (12 - k + 1)
+                h.emit(f"goto {k % 2} {col}", "goto")
+                if pend == 1 and col + 1 <= 12:
+                    h.emit("erasech 1 0", "erasech")
+                if pend == 2:
+                    h.emit(f"chpen bg={(k + N) % 8}", "chpen")
+                h.emit(("printf " if (k + N) % 3 == 0 else "print ") + "".join("%02x" % (0x41 + (k + j) % 26) for j in range(k)), "print")
+                h.emit("flush", "flush"); w += 1
+    dist["exhaustive:outbuf-order"] = w
 
 
 if a.tier == "exhaustive":
@@ -426,11 +642,20 @@ else:
     random_history("onecol")
     random_history("rvlast")
     random_history("probe2")
+    # every formatted length 0..200 (some of them through an output buffer as well)
+    lens = list(range(0, 201)); rng.shuffle(lens)
+    for i in range(0, len(lens), 21):
+        printf_sweep(lens[i:i + 21], rng.choice([0, 1]))
+    for _ in range(3 if a.tier == "quick" else 12):
+        printf_sweep([rng.choice([0, 1, 31, 32, 33, 62, 63, 64, 65, 66, 127, 128, 129, 191, 192, 193, 200, rng.randrange(0, 201)]) for _ in range(14)],
+                     rng.choice([0, 1]), rng.choice([1, 7, 16, 63, 64, 65, 100, 128, 129, 256, 300, rng.randrange(1, 301)]))
+    for _ in range(25 if a.tier == "quick" else 150):
+        order_history()
     for _ in range(nh):
         random_history()
 
 open(a.out, "w").write("\n".join(lines) + "\n")
 info = {"ops": len(lines), "histories": dist["hist"], "distribution": dict(sorted(dist.items()))}
 if a.tier == "exhaustive":
-    info["exhaustive_bound"] = "all rectangles x in-range offsets on 4x5 and 3x3 screens x 8 capability combinations; all erasech (col,count,moveend,reverse) on 2x5; all goto/move on 3x3; every rectangle x offset on 3x3 for the DECRPM replies 0/1/3/4 of mode 69; scroll + resize (2x3->2x4, 2x4->2x3, 2x3->3x3, 3x2->2x4) + every rectangle x non-zero offset at the new size, with and without DECSLRM (the known-finding triggers excluded: they are probed from corpus/C09)"
+    info["exhaustive_bound"] = "all rectangles x in-range offsets on 4x5 and 3x3 screens x 8 capability combinations; all erasech (col,count,moveend,reverse) on 2x5; all goto/move on 3x3; every rectangle x offset on 3x3 for the DECRPM replies 0/1/3/4 of mode 69; scroll + resize (2x3->2x4, 2x4->2x3, 2x3->3x3, 3x2->2x4) + every rectangle x non-zero offset at the new size, with and without DECSLRM; pause + resume + every rectangle x non-zero offset on 3x3 for the replies 0/1/3; printf of every formatted length 0..200 unbuffered and through buffers of 1/63/64/65/128 bytes; output buffers of 1..14 bytes x texts of 1..12 columns x three kinds of request pending in the buffer (the known-finding triggers excluded: they are probed from corpus/C09)"
 print(json.dumps(info))
